@@ -167,7 +167,7 @@ Lemma runo_read_bind A (k : N) (f : list byte -> prog A) known bs :
   | None => OErr bs
   end.
 Proof.
-  cbn [read bindp runo]. unfold avail, take.
+  cbn [read bindp runo]. rewrite avail_spec. unfold take.
   destruct (N.leb_spec k (N.of_nat (length bs))); destruct (Nat.leb_spec (N.to_nat k) (length bs)); try lia; reflexivity.
 Qed.
 
